@@ -1141,7 +1141,14 @@ fn run_truncate(
         // (the reader's own [E100] / [E101] name the position at which the packet they could not read would have
         // ended - the next RDH's position; the repository's test `check_sanity_issue45` pins that)
         let reader_side = |e: &oracle::ErrMsg| e.codes.first().map_or(false, |c| c == "E100" || c == "E101");
-        if let Some(e) = t_errs.iter().find(|e| !e.text.starts_with("FATAL") && !reader_side(e) && e.offset.map_or(false, |o| o >= k.max(1))) {
+        // (only where offset-to-next and memory size agree for every RDH that was read, the cut packet's included: a
+        // payload-loading read follows the memory size while positions follow the offset-to-next - with a memory size
+        // of 65 and an offset of 224 the bytes read as the next RDH are reported at 0xE0 wherever they came from)
+        let framed_all = w.pkts.iter().all(|p| p.rdh.memory_size == p.rdh.offset_next);
+        if !framed_all {
+            ex.probe("beyond_end_oracle_skipped_offset_and_memory_size_disagree");
+        }
+        if let Some(e) = t_errs.iter().filter(|_| framed_all).find(|e| !e.text.starts_with("FATAL") && !reader_side(e) && e.offset.map_or(false, |o| o >= k.max(1))) {
             out.fail = Some(tag(Fail::new(
                 "truncation",
                 "message-offset-beyond-the-end-of-input",
